@@ -83,6 +83,8 @@ func main() {
 		opSigops(r, *n, *tier)
 	case "rlines":
 		opRlines(r, *n, *tier)
+	case "ast":
+		opAst(r, *n, *tier)
 	case "replay":
 		opReplay()
 	default:
